@@ -4,14 +4,14 @@ package main
 
 import (
 	"bytes"
-	"flag"
-	"strings"
 	"encoding/json"
-	"os"
-	"runtime/pprof"
+	"flag"
 	"fmt"
+	"os"
 	"runtime"
+	"runtime/pprof"
 	"sort"
+	"strings"
 
 	specqbft "github.com/bloxapp/ssv-spec/qbft"
 	spectypes "github.com/bloxapp/ssv-spec/types"
@@ -30,48 +30,6 @@ type result struct {
 	states, transitions, executions, maxDepth int
 	aborted                                   bool
 	outcomes                                  map[string]int
-}
-
-func startAssignments(honest []spectypes.OperatorID) []map[spectypes.OperatorID]byte {
-	var out []map[spectypes.OperatorID]byte
-	mk := func(f func(i int) byte) {
-		m := map[spectypes.OperatorID]byte{}
-		for i, h := range honest {
-			m[h] = f(i)
-		}
-		out = append(out, m)
-	}
-	mk(func(int) byte { return 'A' })
-	mk(func(i int) byte {
-		if i == 0 {
-			return 'A'
-		}
-		return 'B'
-	})
-	mk(func(i int) byte { return "AB"[i%2] })
-	return out
-}
-
-func configs(n int, R specqbft.Round, heights []specqbft.Height) []*qnet.Cfg {
-	var out []*qnet.Cfg
-	for _, h := range heights {
-		for byz := 0; byz <= n; byz++ {
-			base := &qnet.Cfg{N: n, Height: h, Byz: spectypes.OperatorID(byz), MaxRound: R, Role: spectypes.BNRoleAttester}
-			base.Init()
-			pols := []*qnet.Policy{nil}
-			if byz != 0 {
-				pols = append(pols, qnet.Policies(base.Honest)...)
-			}
-			for _, p := range pols {
-				for _, st := range startAssignments(base.Honest) {
-					c := *base
-					c.Policy, c.Start = p, st
-					out = append(out, &c)
-				}
-			}
-		}
-	}
-	return out
 }
 
 func outcome(w *qnet.World) string {
@@ -124,23 +82,7 @@ func checkAgreement(r *ev.Run, w *qnet.World, reps []qnet.Report) bool {
 	return ok
 }
 
-func artefact(w *qnet.World) map[string]interface{} {
-	c := w.C
-	start := ""
-	for _, h := range c.Honest {
-		start += string(c.Start[h])
-	}
-	pol := ""
-	if c.Policy != nil {
-		pol = c.Policy.Name
-	}
-	evs := make([][3]int, 0, len(w.Trace))
-	for _, e := range w.Trace {
-		evs = append(evs, [3]int{int(e.Kind), int(e.To), e.Idx})
-	}
-	return map[string]interface{}{"n": c.N, "height": int(c.Height), "byz": int(c.Byz), "start": start, "policy": pol, "max_round": int(c.MaxRound),
-		"events": evs, "readable": w.DescribeTrace(), "final": w.Summary()}
-}
+func artefact(w *qnet.World) map[string]interface{} { return qnet.Artefact(w) }
 
 func runJob(r *ev.Run, j job) result {
 	pool := qnet.NewPool()
@@ -171,7 +113,7 @@ func main() {
 	if pf := os.Getenv("VERIF_PROF"); pf != "" {
 		f, _ := os.Create(pf)
 		pprof.StartCPUProfile(f)
-		c := configs(4, 3, []specqbft.Height{0})[40]
+		c := qnet.Configs(4, 3, []specqbft.Height{0})[40]
 		fmt.Println(c.String())
 		res := runJob(r, job{c, 1})
 		pprof.StopCPUProfile()
@@ -179,7 +121,7 @@ func main() {
 		return
 	}
 	var jobs []job
-	cfgs := configs(4, 3, []specqbft.Height{0})
+	cfgs := qnet.Configs(4, 3, []specqbft.Height{0})
 	for i, c := range cfgs {
 		k := 1
 		if r.Thorough() {
@@ -198,7 +140,7 @@ func main() {
 		}
 	}
 	if r.Thorough() && *cfgFilter == "" {
-		for _, c := range configs(4, 3, []specqbft.Height{1, 2, 3}) {
+		for _, c := range qnet.Configs(4, 3, []specqbft.Height{1, 2, 3}) {
 			jobs = append(jobs, job{c, 1})
 		}
 	}
@@ -268,30 +210,14 @@ func replay(r *ev.Run) {
 	if err != nil {
 		ev.Fatal("%v", err)
 	}
-	t := v.Trace.(map[string]interface{})
-	c := &qnet.Cfg{N: int(t["n"].(float64)), Height: specqbft.Height(t["height"].(float64)), Byz: spectypes.OperatorID(t["byz"].(float64)),
-		MaxRound: specqbft.Round(t["max_round"].(float64)), Role: spectypes.BNRoleAttester}
-	c.Init()
-	c.Start = map[spectypes.OperatorID]byte{}
-	for i, h := range c.Honest {
-		c.Start[h] = t["start"].(string)[i]
-	}
-	if pn := t["policy"].(string); pn != "" {
-		for _, p := range qnet.Policies(c.Honest) {
-			if p.Name == pn {
-				c.Policy = p
-			}
-		}
-		if c.Policy == nil {
-			ev.Fatal("unknown policy %s", pn)
-		}
+	c, evs, err := qnet.FromArtefact(v.Trace.(map[string]interface{}))
+	if err != nil {
+		ev.Fatal("%v", err)
 	}
 	w, init := qnet.NewWorld(c, qnet.NewPool())
 	ok := checkAgreement(r, w, init)
-	for _, e := range t["events"].([]interface{}) {
-		x := e.([]interface{})
-		evn := qnet.Event{Kind: qnet.EventKind(x[0].(float64)), To: spectypes.OperatorID(x[1].(float64)), Idx: int(x[2].(float64))}
-		reps := w.Apply(evn)
+	for _, e := range evs {
+		reps := w.Apply(e)
 		ok = checkAgreement(r, w, reps) && ok
 	}
 	for _, l := range w.DescribeTrace() {
